@@ -1,6 +1,926 @@
-//! C05 — stub (not built yet).
+//! C05 — record data of every type survives compose/parse; lengths exact;
+//! unknown types opaque; canonical form = RFC 4034 §6.2 / RFC 6840 §5.1.
+//!
+//! Sub-checks
+//! * `wire`   — RDATA made by the independent generator (`gen::rdata`) for a
+//!   chosen type, embedded in a scratch message (optionally with compressed
+//!   embedded names), optionally mutated. If the library's parser accepts it
+//!   the value goes through the full value oracle (`check_value`).
+//! * `raw`    — raw octets with a chosen type (also the fuzz entry).
+//! * `typed`  — values made with the public constructors and builders from
+//!   generated fields (`typed.rs`); the reference wire form is assembled by
+//!   hand from the same fields.
+//! * `limits` — values at the 65535-octet RDLENGTH limit (`limits.rs`).
 use crate::engine::*;
+use crate::gen::message as gm;
+use crate::gen::name::{self as gn, Labels};
+use crate::gen::rdata as grd;
+use crate::gen::*;
+use crate::refimpl::rdata::{self as rr, F};
+use crate::refimpl::wire;
+use crate::{vensure, vfail};
+use arbitrary::Unstructured;
+use bytes::Bytes;
+use domain::base::iana::{Class, Rtype};
+use domain::base::message_builder::{HashCompressor, StaticCompressor, TreeCompressor};
+use domain::base::name::{FlattenInto, ParsedName, ToName};
+use domain::base::opt::Opt;
+use domain::base::rdata::{ComposeRecordData, ParseAnyRecordData, ParseRecordData, RecordData, UnknownRecordData};
+use domain::base::wire::Composer;
+use domain::base::{MessageBuilder, Name, Ttl};
+use domain::rdata::*;
+use octseq::parse::Parser;
+use std::collections::BTreeMap;
+
+mod limits;
+mod typed;
+
+pub type NV = Name<Vec<u8>>;
+pub type AllV = AllRecordData<Vec<u8>, NV>;
+pub type PB = ParsedName<Bytes>;
+pub type AllB = AllRecordData<Bytes, PB>;
+pub type ZoneB = ZoneRecordData<Bytes, PB>;
+
+//------------ helpers ---------------------------------------------------------
+
+pub fn hex(b: &[u8]) -> String {
+    let mut s = String::with_capacity(b.len() * 2);
+    for x in b.iter().take(300) {
+        s.push_str(&format!("{x:02x}"));
+    }
+    if b.len() > 300 {
+        s.push_str(&format!("…({} octets)", b.len()));
+    }
+    s
+}
+
+/// Type label used in signatures and classes.
+pub fn tname(rtype: u16) -> String {
+    if rr::schema(rtype).is_some() {
+        rr::mnemonic(rtype)
+    } else {
+        "unknown".to_string()
+    }
+}
+
+/// `==` of the library, with the two variants for which `AllRecordData`'s
+/// `PartialEq` has no arm (known finding of C04) compared through their
+/// inner values. For unknown types the record type is part of the value.
+pub fn all_eq<O, N, OO, NN>(a: &AllRecordData<O, N>, b: &AllRecordData<OO, NN>) -> bool
+where
+    O: AsRef<[u8]>,
+    OO: AsRef<[u8]>,
+    N: ToName,
+    NN: ToName,
+{
+    match (a, b) {
+        (AllRecordData::Opt(x), AllRecordData::Opt(y)) => x == y,
+        (AllRecordData::Unknown(x), AllRecordData::Unknown(y)) => x.rtype() == y.rtype() && x == y,
+        _ => a == b,
+    }
+}
+
+/// Parses msg[start..end] as RDATA of `rtype` the way the message reader
+/// does (sub-parser limited to the RDATA, trailing data is an error).
+pub fn parse_region(msg: &Bytes, start: usize, end: usize, rtype: Rtype) -> Result<AllB, String> {
+    let mut p = Parser::from_ref(msg);
+    p.advance(start).map_err(|_| "harness: start beyond buffer".to_string())?;
+    let mut sub = p.parse_parser(end - start).map_err(|_| "harness: end beyond buffer".to_string())?;
+    let v = AllB::parse_any_rdata(rtype, &mut sub).map_err(|e| e.to_string())?;
+    if sub.remaining() > 0 {
+        return Err("trailing data".into());
+    }
+    Ok(v)
+}
+
+pub fn parse_region_zone(msg: &Bytes, start: usize, end: usize, rtype: Rtype) -> Result<ZoneB, String> {
+    let mut p = Parser::from_ref(msg);
+    p.advance(start).map_err(|_| "harness: start beyond buffer".to_string())?;
+    let mut sub = p.parse_parser(end - start).map_err(|_| "harness: end beyond buffer".to_string())?;
+    let v = ZoneB::parse_rdata(rtype, &mut sub).map_err(|e| e.to_string())?;
+    if sub.remaining() > 0 {
+        return Err("trailing data".into());
+    }
+    v.ok_or_else(|| "declined".to_string())
+}
+
+fn go_typed<'a, T>(msg: &'a Bytes, start: usize, end: usize, rtype: Rtype) -> Result<AllB, String>
+where
+    T: ParseRecordData<'a, Bytes> + Into<AllB>,
+{
+    let mut p = Parser::from_ref(msg);
+    p.advance(start).map_err(|_| "harness".to_string())?;
+    // "If the function doesn't want to process the data, it must not touch
+    // the parser": a foreign type must be declined without advancing.
+    {
+        let other = if rtype == Rtype::from_int(4242) { Rtype::from_int(4243) } else { Rtype::from_int(4242) };
+        let mut sub = p.parse_parser(end - start).map_err(|_| "harness".to_string())?;
+        let before = sub.pos();
+        match T::parse_rdata(other, &mut sub) {
+            Ok(None) if sub.pos() == before => {}
+            Ok(None) => return Err("DECLINE-ADVANCED".into()),
+            _ => return Err("FOREIGN-TYPE-NOT-DECLINED".into()),
+        }
+    }
+    let mut p = Parser::from_ref(msg);
+    p.advance(start).map_err(|_| "harness".to_string())?;
+    let mut sub = p.parse_parser(end - start).map_err(|_| "harness".to_string())?;
+    match T::parse_rdata(rtype, &mut sub) {
+        Ok(Some(v)) => {
+            if sub.remaining() > 0 {
+                Err("trailing data".into())
+            } else {
+                Ok(v.into())
+            }
+        }
+        Ok(None) => Err("DECLINED-OWN-TYPE".into()),
+        Err(e) => Err(e.to_string()),
+    }
+}
+
+/// For the types that have `parse` but no `ParseRecordData` impl.
+fn go_fn<T: Into<AllB>>(msg: &Bytes, start: usize, end: usize, f: impl FnOnce(&mut Parser<'_, Bytes>) -> Result<T, domain::base::wire::ParseError>) -> Result<AllB, String> {
+    let mut p = Parser::from_ref(msg);
+    p.advance(start).map_err(|_| "harness".to_string())?;
+    let mut sub = p.parse_parser(end - start).map_err(|_| "harness".to_string())?;
+    match f(&mut sub) {
+        Ok(v) => {
+            if sub.remaining() > 0 {
+                Err("trailing data".into())
+            } else {
+                Ok(v.into())
+            }
+        }
+        Err(e) => Err(e.to_string()),
+    }
+}
+
+/// Parses through the dedicated type's own `ParseRecordData` impl (or its
+/// `parse` function). None for types without a dedicated type.
+pub fn parse_region_typed(msg: &Bytes, s: usize, e: usize, rtype: Rtype) -> Option<Result<AllB, String>> {
+    Some(match rtype.to_int() {
+        rr::A => go_typed::<A>(msg, s, e, rtype),
+        rr::NS => go_typed::<Ns<PB>>(msg, s, e, rtype),
+        rr::MD => go_typed::<Md<PB>>(msg, s, e, rtype),
+        rr::MF => go_typed::<Mf<PB>>(msg, s, e, rtype),
+        rr::CNAME => go_typed::<Cname<PB>>(msg, s, e, rtype),
+        rr::SOA => go_typed::<Soa<PB>>(msg, s, e, rtype),
+        rr::MB => go_typed::<Mb<PB>>(msg, s, e, rtype),
+        rr::MG => go_typed::<Mg<PB>>(msg, s, e, rtype),
+        rr::MR => go_typed::<Mr<PB>>(msg, s, e, rtype),
+        rr::NULL => go_typed::<Null<Bytes>>(msg, s, e, rtype),
+        rr::PTR => go_typed::<Ptr<PB>>(msg, s, e, rtype),
+        rr::HINFO => go_typed::<Hinfo<Bytes>>(msg, s, e, rtype),
+        rr::MINFO => go_typed::<Minfo<PB>>(msg, s, e, rtype),
+        rr::MX => go_typed::<Mx<PB>>(msg, s, e, rtype),
+        rr::TXT => go_typed::<Txt<Bytes>>(msg, s, e, rtype),
+        rr::RP => go_typed::<Rp<PB>>(msg, s, e, rtype),
+        rr::AAAA => go_typed::<Aaaa>(msg, s, e, rtype),
+        rr::SRV => go_typed::<Srv<PB>>(msg, s, e, rtype),
+        rr::NAPTR => go_typed::<Naptr<Bytes, PB>>(msg, s, e, rtype),
+        rr::DNAME => go_typed::<Dname<PB>>(msg, s, e, rtype),
+        rr::OPT => go_typed::<Opt<Bytes>>(msg, s, e, rtype),
+        rr::DS => go_typed::<Ds<Bytes>>(msg, s, e, rtype),
+        rr::SSHFP => go_fn(msg, s, e, |p| Sshfp::<Bytes>::parse(p)),
+        rr::IPSECKEY => go_fn(msg, s, e, |p| Ipseckey::<Bytes, PB>::parse(p)),
+        rr::RRSIG => go_typed::<Rrsig<Bytes, PB>>(msg, s, e, rtype),
+        rr::NSEC => go_typed::<Nsec<Bytes, PB>>(msg, s, e, rtype),
+        rr::DNSKEY => go_typed::<Dnskey<Bytes>>(msg, s, e, rtype),
+        rr::NSEC3 => go_typed::<Nsec3<Bytes>>(msg, s, e, rtype),
+        rr::NSEC3PARAM => go_typed::<Nsec3param<Bytes>>(msg, s, e, rtype),
+        rr::TLSA => go_fn(msg, s, e, |p| Tlsa::<Bytes>::parse(p)),
+        rr::CDS => go_typed::<Cds<Bytes>>(msg, s, e, rtype),
+        rr::CDNSKEY => go_typed::<Cdnskey<Bytes>>(msg, s, e, rtype),
+        rr::OPENPGPKEY => go_fn(msg, s, e, |p| Openpgpkey::<Bytes>::parse(p)),
+        rr::ZONEMD => go_fn(msg, s, e, |p| Zonemd::<Bytes>::parse(p)),
+        rr::SVCB => go_typed::<Svcb<Bytes, PB>>(msg, s, e, rtype),
+        rr::HTTPS => go_typed::<Https<Bytes, PB>>(msg, s, e, rtype),
+        rr::TSIG => go_typed::<Tsig<Bytes, PB>>(msg, s, e, rtype),
+        rr::CAA => go_typed::<Caa<Bytes>>(msg, s, e, rtype),
+        _ => return None,
+    })
+}
+
+fn compose_plain<D: ComposeRecordData>(d: &D) -> Vec<u8> {
+    let mut v = Vec::new();
+    let _ = d.compose_rdata(&mut v);
+    v
+}
+fn compose_canon<D: ComposeRecordData>(d: &D) -> Vec<u8> {
+    let mut v = Vec::new();
+    let _ = d.compose_canonical_rdata(&mut v);
+    v
+}
+
+/// Minimal RDATA length of a type by the field table (all variable fields
+/// empty, names = root).
+pub fn min_len(rtype: u16) -> Option<usize> {
+    let fields = rr::schema(rtype)?;
+    Some(
+        fields
+            .iter()
+            .map(|f| match *f {
+                F::U8 => 1,
+                F::U16 => 2,
+                F::U32 => 4,
+                F::U48 => 6,
+                F::Fixed(n) => n,
+                F::Name { .. } => 1,
+                F::CharStr | F::Len8 => 1,
+                F::Len16 => 2,
+                F::CaaTag => 2,
+                F::CharStrs | F::Rest | F::Bitmap | F::SvcParams | F::IpsecGateway | F::OptOptions => 0,
+            })
+            .sum(),
+    )
+}
+
+/// Non-triviality rule (see `Prop.rule`).
+pub fn is_nontrivial(rtype: u16, plain: &[u8]) -> bool {
+    let Some(fields) = rr::schema(rtype) else { return !plain.is_empty() };
+    let only_fixed = fields.iter().all(|f| matches!(f, F::U8 | F::U16 | F::U32 | F::U48 | F::Fixed(_)));
+    if only_fixed {
+        return plain.iter().any(|&b| b != 0);
+    }
+    if plain.len() > min_len(rtype).unwrap_or(0) {
+        return true;
+    }
+    rr::name_spans(rtype, plain).iter().any(|&(o, l, _, _)| plain[o..o + l].iter().any(|b| b.is_ascii_uppercase()))
+}
+
+//------------ compressing targets ----------------------------------------------
+
+fn direct_on<T, D>(mut t: T, seeds: &[NV], d: &D) -> Result<(Vec<u8>, usize), String>
+where
+    T: Composer,
+    D: ComposeRecordData,
+{
+    t.append_slice(&[0u8; 12]).map_err(|_| "append".to_string())?;
+    for s in seeds {
+        t.append_compressed_name(s).map_err(|_| "append".to_string())?;
+        t.append_slice(&[0, 1, 0, 1]).map_err(|_| "append".to_string())?;
+    }
+    let lenpos = t.as_ref().len();
+    d.compose_len_rdata(&mut t).map_err(|_| "compose_len_rdata failed".to_string())?;
+    Ok((t.as_ref().to_vec(), lenpos))
+}
+
+fn builder_on<T, D>(t: T, seeds: &[NV], d: &D) -> Result<Vec<u8>, String>
+where
+    T: Composer,
+    D: ComposeRecordData,
+{
+    let root = NV::root();
+    let mb = MessageBuilder::from_target(t).map_err(|_| "from_target".to_string())?;
+    let mut q = mb.question();
+    let qn = seeds.first().unwrap_or(&root);
+    q.push((qn, Rtype::A)).map_err(|e| format!("question push: {e}"))?;
+    let mut a = q.answer();
+    // records ahead so that suffixes are known to the compressor
+    for s in seeds.iter().skip(1) {
+        a.push((s, Class::IN, Ttl::from_secs(1), A::from_octets(192, 0, 2, 9))).map_err(|e| format!("seed push: {e}"))?;
+    }
+    let owner = seeds.last().unwrap_or(&root);
+    a.push((owner, Class::IN, Ttl::from_secs(3600), d)).map_err(|e| format!("PUSH-DATA: {e}"))?;
+    a.push((owner, Class::IN, Ttl::from_secs(3600), A::from_octets(192, 0, 2, 1))).map_err(|e| format!("sentinel push: {e}"))?;
+    Ok(a.finish().as_ref().to_vec())
+}
+
+/// Names used to seed a compressor: the names embedded in `plain` (so that
+/// compression actually happens), parents and case variants of them, and a
+/// few pool names.
+fn seed_names(rtype: u16, plain: &[u8], pool: &[Labels], u: &mut Unstructured) -> Vec<NV> {
+    let mut out: Vec<Labels> = vec![];
+    for (o, l, _, _) in rr::name_spans(rtype, plain) {
+        if let Some(n) = gn::from_wire(&plain[o..o + l]) {
+            match pick(u, 5) {
+                0 => out.push(n),
+                1 => out.push(gn::swap_case(&n, u)),
+                2 => {
+                    let mut p = n.clone();
+                    if !p.is_empty() {
+                        p.remove(0);
+                    }
+                    out.push(p);
+                }
+                3 => {
+                    // sibling sharing the parent
+                    let mut p = n.clone();
+                    if !p.is_empty() {
+                        p[0] = b"sib".to_vec();
+                    }
+                    if gn::wire_len(&p) <= 255 {
+                        out.push(p);
+                    }
+                }
+                _ => {}
+            }
+        }
+    }
+    if !pool.is_empty() {
+        for _ in 0..pick(u, 3) {
+            out.push(pool[pick(u, pool.len())].clone());
+        }
+    }
+    out.truncate(6);
+    out.iter().map(gn::to_name).collect()
+}
+
+/// Checks one value on the three compressing targets, directly and through
+/// `MessageBuilder`.
+fn check_compressing<O, N>(
+    tn: &str,
+    rtype: u16,
+    v: &AllRecordData<O, N>,
+    plain: &[u8],
+    pool: &[Labels],
+    u: &mut Unstructured,
+    ctx: &mut Ctx,
+) -> CaseResult
+where
+    O: AsRef<[u8]>,
+    N: ToName,
+{
+    let seeds = seed_names(rtype, plain, pool, u);
+    let which = pick(u, 3);
+    let rt = Rtype::from_int(rtype);
+    let rdlen_c = v.rdlen(true);
+    if let Some(n) = rdlen_c {
+        vensure!(usize::from(n) == plain.len(), format!("rdlen:{tn}:compress-some-differs-from-plain"), "rdlen(true) = Some({n}) but plain composition has {} octets", plain.len());
+    }
+    // (1) compose_len_rdata directly on a compressing target
+    let r = match which {
+        0 => direct_on(StaticCompressor::new(Vec::new()), &seeds, v),
+        1 => direct_on(TreeCompressor::new(Vec::new()), &seeds, v),
+        _ => direct_on(HashCompressor::new(Vec::new()), &seeds, v),
+    };
+    let cname = ["static", "tree", "hash"][which];
+    let (buf, lenpos) = match r {
+        Ok(x) => x,
+        Err(e) => vfail!(format!("compress:{tn}:compose-failed"), "{cname}: {e}"),
+    };
+    let adv = u16::from_be_bytes([buf[lenpos], buf[lenpos + 1]]) as usize;
+    let written = buf.len() - lenpos - 2;
+    vensure!(adv == written, format!("compose_len_rdata:{tn}:prefix-differs-on-compressor"), "{cname}compressor: length prefix {adv}, {written} octets written; value {v:?}", v = hex(plain));
+    if let Some(n) = rdlen_c {
+        vensure!(usize::from(n) == written, format!("rdlen:{tn}:compress-some-differs"), "rdlen(true) = Some({n}) but {written} octets written on {cname} compressor");
+    }
+    let (s, e) = (lenpos + 2, buf.len());
+    match rr::normal_rdata(rtype, &buf, s, e, false) {
+        Ok((norm, fl)) => {
+            if fl.pointers > 0 {
+                ctx.class("compressed-on-target");
+                ctx.class(format!("compressed:{tn}"));
+            }
+            vensure!(norm.len() == plain.len() && norm.eq_ignore_ascii_case(plain), format!("compress:{tn}:decompressed-differs"), "{cname}: decompressed RDATA {} differs from plain composition {}", hex(&norm), hex(plain));
+        }
+        Err(err) => {
+            // the walker is stricter than the library for a few forms; it
+            // already rejects the plain composition then
+            if rr::normal_rdata(rtype, plain, 0, plain.len(), false).is_ok() {
+                vfail!(format!("compress:{tn}:walker-rejects-compressed"), "{cname}: independent walker rejects the composed RDATA ({err:?}) but accepts the plain form; buf {}", hex(&buf[s..e]));
+            }
+        }
+    }
+    let bb = Bytes::from(buf);
+    match parse_region(&bb, s, e, rt) {
+        Ok(v2) => vensure!(all_eq(v, &v2), format!("compress:{tn}:reparsed-differs"), "{cname}: value parsed from the compressing target differs; plain {}", hex(plain)),
+        Err(err) => vfail!(format!("compress:{tn}:reparse-fails"), "{cname}: {err}; region {}", hex(&bb[s..e])),
+    }
+    // (2) through MessageBuilder (record header + back-patched RDLENGTH)
+    let r = match which {
+        0 => builder_on(StaticCompressor::new(Vec::new()), &seeds, v),
+        1 => builder_on(TreeCompressor::new(Vec::new()), &seeds, v),
+        _ => builder_on(HashCompressor::new(Vec::new()), &seeds, v),
+    };
+    let msg = match r {
+        Ok(m) => m,
+        Err(e) => vfail!(format!("builder:{tn}:push-failed"), "{cname}: {e}"),
+    };
+    let w = wire::walk(&msg).ok_or_else(|| Violation::new(format!("builder:{tn}:not-a-message"), "short"))?;
+    vensure!(w.error.is_none(), format!("builder:{tn}:walker-error"), "{cname}: message does not walk: {:?}; {}", w.error, hex(&msg));
+    let n = w.records.len();
+    vensure!(n >= 2, format!("builder:{tn}:record-count"), "records {n}");
+    let (rec, sentinel) = (&w.records[n - 2], &w.records[n - 1]);
+    vensure!(
+        rec.rtype == rtype && sentinel.rtype == 1 && &msg[sentinel.rd_start..sentinel.rd_end] == &[192, 0, 2, 1] && sentinel.rd_end == msg.len(),
+        format!("builder:{tn}:rdlength-wrong"),
+        "{cname}: RDLENGTH of the pushed record does not lead to the following record; {}",
+        hex(&msg)
+    );
+    if let Ok((norm, _)) = wire::rdata_normal(&msg, rec) {
+        vensure!(norm.len() == plain.len() && norm.eq_ignore_ascii_case(plain), format!("builder:{tn}:decompressed-differs"), "{cname}: {} vs {}", hex(&norm), hex(plain));
+    }
+    let (s, e) = (rec.rd_start, rec.rd_end);
+    let bb = Bytes::from(msg);
+    match parse_region(&bb, s, e, rt) {
+        Ok(v2) => vensure!(all_eq(v, &v2), format!("builder:{tn}:reparsed-differs"), "{cname}: value parsed from the built message differs; plain {}", hex(plain)),
+        Err(err) => vfail!(format!("builder:{tn}:reparse-fails"), "{cname}: {err}"),
+    }
+    Ok(())
+}
+
+//------------ the value oracle --------------------------------------------------
+
+/// Everything the statement says about one value. Returns the plain
+/// (uncompressed) composition.
+pub fn check_value<O, N>(
+    rtype: u16,
+    v: &AllRecordData<O, N>,
+    pool: &[Labels],
+    u: &mut Unstructured,
+    ctx: &mut Ctx,
+) -> Result<Vec<u8>, Violation>
+where
+    O: AsRef<[u8]>,
+    N: ToName,
+{
+    let tn = tname(rtype);
+    let rt = Rtype::from_int(rtype);
+    vensure!(v.rtype() == rt, format!("rtype:{tn}:value-reports-other-type"), "value for type {rtype} reports rtype {}", v.rtype());
+    let plain = compose_plain(v);
+    vensure!(plain.len() <= 65535, format!("compose:{tn}:longer-than-65535"), "compose_rdata wrote {} octets", plain.len());
+    // advertised lengths
+    match v.rdlen(false) {
+        Some(n) => vensure!(usize::from(n) == plain.len(), format!("rdlen:{tn}:differs-from-composed"), "rdlen(false) = {n}, compose_rdata wrote {} octets: {}", plain.len(), hex(&plain)),
+        None => ctx.class(format!("rdlen-none:{tn}")),
+    }
+    {
+        let mut t = vec![0xAAu8; 3];
+        let _ = v.compose_len_rdata(&mut t);
+        vensure!(t.len() >= 5, format!("compose_len_rdata:{tn}:no-prefix"), "nothing written");
+        let adv = u16::from_be_bytes([t[3], t[4]]) as usize;
+        vensure!(adv == t.len() - 5, format!("compose_len_rdata:{tn}:prefix-differs"), "length prefix {adv}, {} octets written", t.len() - 5);
+        vensure!(t[5..] == plain[..] && t[..3] == [0xAA; 3], format!("compose_len_rdata:{tn}:octets-differ"), "compose_len_rdata wrote {} but compose_rdata {}", hex(&t[5..]), hex(&plain));
+    }
+    // canonical form
+    let canon = compose_canon(v);
+    {
+        let mut t = Vec::new();
+        let _ = v.compose_canonical_len_rdata(&mut t);
+        vensure!(t.len() >= 2 && u16::from_be_bytes([t[0], t[1]]) as usize == t.len() - 2 && t[2..] == canon[..], format!("compose_canonical_len_rdata:{tn}:prefix-or-octets-differ"), "{} vs canonical {}", hex(&t), hex(&canon));
+    }
+    match rr::canonical_rdata(rtype, &plain) {
+        Ok(want) => {
+            vensure!(canon == want, format!("canonical:{tn}:differs-from-rfc4034"), "compose_canonical_rdata {} but RFC 4034 §6.2 / RFC 6840 §5.1 form of the wire form {} is {}", hex(&canon), hex(&plain), hex(&want));
+            if want != plain {
+                ctx.class("canonical-lowercased");
+                ctx.class(format!("canonical-lowercased:{tn}"));
+            } else if plain.iter().any(|b| b.is_ascii_uppercase()) && !rr::name_spans(rtype, &plain).is_empty() {
+                ctx.class("canonical-identical-with-uppercase");
+            }
+        }
+        Err(e) => {
+            // library accepted a form the strict walker does not (e.g.
+            // unordered type bitmap windows): fall back to the spans that can
+            // be located
+            ctx.class(format!("walker-rejects-composed:{tn}:{e:?}"));
+            vensure!(canon.len() == plain.len() && canon.eq_ignore_ascii_case(&plain), format!("canonical:{tn}:differs-beyond-case"), "{} vs {}", hex(&canon), hex(&plain));
+        }
+    }
+    // compose -> parse -> equal, and identical re-composition
+    let bb = Bytes::from(plain.clone());
+    let v2 = match parse_region(&bb, 0, bb.len(), rt) {
+        Ok(v2) => v2,
+        Err(e) => vfail!(format!("roundtrip:{tn}:composed-does-not-parse"), "composition {} is rejected by the parser: {e}", hex(&plain)),
+    };
+    vensure!(all_eq(v, &v2), format!("roundtrip:{tn}:reparsed-differs"), "value differs after compose -> parse; composition {}; reparsed composes to {}", hex(&plain), hex(&compose_plain(&v2)));
+    vensure!(all_eq(&v2, v), format!("roundtrip:{tn}:eq-not-symmetric"), "reparsed == value but not value == reparsed");
+    let plain2 = compose_plain(&v2);
+    vensure!(plain2 == plain, format!("roundtrip:{tn}:recomposition-differs"), "{} then {}", hex(&plain), hex(&plain2));
+    vensure!(compose_canon(&v2) == canon, format!("roundtrip:{tn}:canonical-recomposition-differs"), "canonical form changes after a round trip");
+    vensure!(v2.rtype() == rt, format!("rtype:{tn}:changed-by-roundtrip"), "{} -> {}", rt, v2.rtype());
+    // the dedicated type's own parser and the zone enum agree with the enum
+    // dispatch
+    match parse_region_typed(&bb, 0, bb.len(), rt) {
+        Some(Ok(v3)) => vensure!(all_eq(&v2, &v3) && compose_plain(&v3) == plain, format!("dispatch:{tn}:typed-parse-differs"), "T::parse_rdata and AllRecordData::parse_any_rdata give different values for {}", hex(&plain)),
+        Some(Err(e)) => vfail!(format!("dispatch:{tn}:typed-parse-rejects"), "T::parse_rdata rejects what AllRecordData accepted: {e}; {}", hex(&plain)),
+        None => {
+            vensure!(matches!(v2, AllRecordData::Unknown(_)), format!("dispatch:{tn}:not-unknown"), "type without a dedicated type did not become Unknown");
+        }
+    }
+    match parse_region_zone(&bb, 0, bb.len(), rt) {
+        Ok(z) => {
+            vensure!(z.rtype() == rt, format!("dispatch:{tn}:zone-rtype"), "zone enum reports {}", z.rtype());
+            vensure!(compose_plain(&z) == plain && compose_canon(&z) == canon, format!("dispatch:{tn}:zone-parse-differs"), "ZoneRecordData composes {} for {}", hex(&compose_plain(&z)), hex(&plain));
+            if let Some(n) = z.rdlen(false) {
+                vensure!(usize::from(n) == plain.len(), format!("rdlen:{tn}:zone-differs"), "zone enum rdlen {n}");
+            }
+            let is_zone_type = rr::ZONE_TYPES.contains(&rtype);
+            vensure!(matches!(z, ZoneRecordData::Unknown(_)) != is_zone_type, format!("dispatch:{tn}:zone-variant"), "zone type {is_zone_type} but Unknown variant {}", matches!(z, ZoneRecordData::Unknown(_)));
+        }
+        Err(e) => {
+            // zone enum treats non-zone types (NULL, OPT, TSIG) as opaque; an
+            // opaque carrier must accept everything
+            vfail!(format!("dispatch:{tn}:zone-parse-rejects"), "ZoneRecordData rejects {}: {e}", hex(&plain));
+        }
+    }
+    // conversions keep the value
+    {
+        let flat: Result<AllV, _> = v2.clone().try_flatten_into();
+        match flat {
+            Ok(f) => {
+                vensure!(all_eq(&f, &v2) && compose_plain(&f) == plain, format!("convert:{tn}:flatten-differs"), "flatten_into changes the value");
+                let conv: Result<AllRecordData<Bytes, Name<Bytes>>, _> = octseq::octets::OctetsFrom::try_octets_from(f);
+                match conv {
+                    Ok(c) => vensure!(all_eq(&c, &v2) && compose_plain(&c) == plain && c.rtype() == rt, format!("convert:{tn}:octets_from-differs"), "OctetsFrom changes the value"),
+                    Err(_) => vfail!(format!("convert:{tn}:octets_from-fails"), "try_octets_from to Bytes failed"),
+                }
+            }
+            Err(_) => vfail!(format!("convert:{tn}:flatten-fails"), "try_flatten_into to Vec failed"),
+        }
+    }
+    // compressing targets (positions must stay below 0x4000: pointer range,
+    // C02's business above that)
+    if plain.len() < 12_000 {
+        check_compressing(&tn, rtype, v, &plain, pool, u, ctx)?;
+    }
+    // sub-structures with their own codecs
+    match v {
+        AllRecordData::Opt(o) => typed::check_opt_options(o.for_slice_ref(), false, ctx)?,
+        AllRecordData::Svcb(s) => typed::check_svc_params(s.params().as_slice(), ctx)?,
+        AllRecordData::Https(s) => typed::check_svc_params(s.params().as_slice(), ctx)?,
+        _ => {}
+    }
+    ctx.class(format!("ok:{tn}"));
+    if is_nontrivial(rtype, &plain) {
+        ctx.class(format!("nt:{tn}"));
+    }
+    Ok(plain)
+}
+
+//------------ wire: generator-made RDATA, embedded, optionally mutated ---------
+
+const UNKNOWN_TYPES: [u16; 9] = [99, 258, 1234, 65280, 65534, 32768, 11, 18, 40];
+
+pub fn pick_rtype(u: &mut Unstructured) -> u16 {
+    let n = rr::ALL_TYPES.len();
+    let i = pick(u, n + 3);
+    if i < n {
+        rr::ALL_TYPES[i]
+    } else {
+        UNKNOWN_TYPES[pick(u, UNKNOWN_TYPES.len())]
+    }
+}
+
+struct Scratch {
+    msg: Vec<u8>,
+    start: usize,
+    end: usize,
+}
+
+/// header + a few names (pointer targets) + RDATA + sentinel octets.
+fn embed(u: &mut Unstructured, rtype: u16, rd: &[u8], pool: &[Labels], compress: bool, nonwk: bool) -> Scratch {
+    let mut w = gm::Writer { buf: vec![0u8; 12], seen: vec![], layout: gm::Layout::default() };
+    let k = 1 + pick(u, 3);
+    for _ in 0..k {
+        let n = pool[pick(u, pool.len())].clone();
+        w.name(u, &n, compress);
+        w.buf.extend_from_slice(&[0, 1, 0, 1]);
+    }
+    let lenpos = w.buf.len();
+    w.rdata(u, rtype, rd, compress, nonwk);
+    let start = lenpos + 2;
+    let end = w.buf.len();
+    // octets behind the RDATA: an over-read must not go unnoticed
+    w.buf.extend_from_slice(b"\x03end\x00\x01\xff\x00");
+    Scratch { msg: w.buf, start, end }
+}
+
+fn mutate(u: &mut Unstructured, s: &mut Scratch, tags: &mut Vec<&'static str>) {
+    let n = 1 + pick(u, 2);
+    for _ in 0..n {
+        let len = s.end - s.start;
+        match pick(u, 10) {
+            0 if len > 0 => {
+                let i = s.start + pick(u, len);
+                s.msg[i] ^= 1 << pick(u, 8);
+                tags.push("m:bitflip");
+            }
+            1 if len > 0 => {
+                let i = s.start + pick(u, len);
+                s.msg[i] = [0u8, 1, 63, 64, 0xC0, 0xFF, 255, 2][pick(u, 8)];
+                tags.push("m:length-like");
+            }
+            2 if len > 0 => {
+                let i = s.start + pick(u, len);
+                s.msg[i] = if flag(u) { s.msg[i].wrapping_add(1) } else { s.msg[i].wrapping_sub(1) };
+                tags.push("m:plus-minus-one");
+            }
+            3 if len > 0 => {
+                let k = 1 + pick(u, len.min(6));
+                s.end -= k;
+                tags.push("m:truncated");
+            }
+            4 => {
+                let k = 1 + pick(u, 6);
+                s.end = (s.end + k).min(s.msg.len());
+                tags.push("m:extended");
+            }
+            5 => {
+                let i = s.start + pick(u, len + 1);
+                let k = 1 + pick(u, 4);
+                for _ in 0..k {
+                    s.msg.insert(i, byte(u));
+                }
+                s.end += k;
+                tags.push("m:inserted");
+            }
+            6 if len > 1 => {
+                let i = s.start + pick(u, len);
+                s.msg.remove(i);
+                s.end -= 1;
+                tags.push("m:deleted");
+            }
+            7 if len >= 2 => {
+                let i = s.start + pick(u, len - 1);
+                let t = pick(u, s.start.min(0x3FFF));
+                s.msg[i..i + 2].copy_from_slice(&(0xC000u16 | t as u16).to_be_bytes());
+                tags.push("m:pointer-planted");
+            }
+            8 if len > 0 => {
+                // set to the number of octets that follow
+                let i = s.start + pick(u, len);
+                s.msg[i] = (s.end - i - 1).min(255) as u8;
+                tags.push("m:length-to-end");
+            }
+            _ => {
+                if len > 0 {
+                    let i = s.start + pick(u, len);
+                    s.msg[i] = byte(u);
+                    tags.push("m:byte-set");
+                }
+            }
+        }
+    }
+}
+
+fn run_wire(data: &[u8], ctx: &mut Ctx) -> CaseResult {
+    let mut u = Unstructured::new(data);
+    let rtype = pick_rtype(&mut u);
+    let plain_names = chance(&mut u, 64);
+    let np = 2 + pick(&mut u, 4);
+    let pool = gn::pool(&mut u, np, plain_names);
+    let max_blob = match pick(&mut u, 8) {
+        0 => 0,
+        1..=5 => 40,
+        6 => 300,
+        _ => {
+            if ctx.thorough {
+                9000
+            } else {
+                1500
+            }
+        }
+    };
+    let rd = grd::rdata(&mut u, rtype, &pool, grd::Opts { plain_names, max_blob });
+    let compress = flag(&mut u);
+    let nonwk = compress && chance(&mut u, 80);
+    let mut s = embed(&mut u, rtype, &rd, &pool, compress, nonwk);
+    let mut tags: Vec<&'static str> = vec![];
+    let mutated = chance(&mut u, 90);
+    if mutated {
+        mutate(&mut u, &mut s, &mut tags);
+    }
+    run_region(rtype, s, Some(&rd), mutated, &tags, &pool, &mut u, ctx)
+}
+
+#[allow(clippy::too_many_arguments)]
+fn run_region(
+    rtype: u16,
+    s: Scratch,
+    generated: Option<&[u8]>,
+    mutated: bool,
+    tags: &[&'static str],
+    pool: &[Labels],
+    u: &mut Unstructured,
+    ctx: &mut Ctx,
+) -> CaseResult {
+    let tn = tname(rtype);
+    let rt = Rtype::from_int(rtype);
+    for t in tags {
+        ctx.class(*t);
+    }
+    ctx.class(if generated.is_none() {
+        "raw"
+    } else if mutated {
+        "mutated"
+    } else {
+        "valid"
+    });
+    if std::env::var_os("VERIF_DEBUG").is_some() {
+        eprintln!("type {rtype} region {}..{} of {}", s.start, s.end, hex(&s.msg));
+    }
+    let region = s.msg[s.start..s.end].to_vec();
+    let walker = rr::normal_rdata(rtype, &s.msg, s.start, s.end, false);
+    if let (Some(rd), false) = (generated, mutated) {
+        // self-check of generator + writer + walker
+        match &walker {
+            Ok((norm, _)) if &norm[..] == rd => {}
+            other => vfail!("harness:generator-walker-disagree", "type {rtype}: generated {} embedded {} walker {:?}", hex(rd), hex(&region), other.as_ref().map(|x| hex(&x.0))),
+        }
+    }
+    if let Ok((_, fl)) = &walker {
+        if fl.pointers > 0 {
+            ctx.class("input-compressed");
+            ctx.class(format!("input-compressed:{tn}"));
+        }
+    }
+    let bb = Bytes::from(s.msg.clone());
+    let parsed = parse_region(&bb, s.start, s.end, rt);
+    // the dedicated type's parser and the enum dispatch must agree on
+    // acceptance for the very same octets
+    if let Some(tp) = parse_region_typed(&bb, s.start, s.end, rt) {
+        match (&parsed, &tp) {
+            (Ok(a), Ok(b)) => vensure!(all_eq(a, b), format!("dispatch:{tn}:typed-parse-differs"), "region {}", hex(&region)),
+            (Err(_), Err(e)) if !e.contains("DECLINE") && !e.contains("FOREIGN") => {}
+            (a, b) => vfail!(format!("dispatch:{tn}:typed-parse-acceptance-differs"), "enum {:?} typed {:?} for {}", a.as_ref().map(|_| "ok"), b.as_ref().map(|_| "ok"), hex(&region)),
+        }
+    }
+    // zone enum: same acceptance for zone types, opaque for all others
+    {
+        let z = parse_region_zone(&bb, s.start, s.end, rt);
+        if rr::ZONE_TYPES.contains(&rtype) {
+            vensure!(z.is_ok() == parsed.is_ok(), format!("dispatch:{tn}:zone-acceptance-differs"), "zone {:?} all {:?} for {}", z.as_ref().map(|_| "ok"), parsed.as_ref().map(|_| "ok"), hex(&region));
+        } else {
+            match z {
+                Ok(ZoneRecordData::Unknown(d)) => {
+                    vensure!(d.rtype() == rt && d.data().as_ref() == &region[..] && compose_plain(&d) == region, format!("opaque:{tn}:zone-unknown-changed"), "zone enum changed opaque data {}", hex(&region));
+                    ctx.class("zone-opaque");
+                }
+                Ok(_) => vfail!(format!("dispatch:{tn}:zone-variant"), "non-zone type parsed into a typed zone variant"),
+                Err(e) => vfail!(format!("opaque:{tn}:zone-unknown-rejects"), "ZoneRecordData rejects opaque data: {e}"),
+            }
+        }
+    }
+    // UnknownRecordData itself carries any region unchanged (RFC 3597)
+    {
+        let mut p = Parser::from_ref(&bb);
+        let _ = p.advance(s.start);
+        let mut sub = p.parse_parser(s.end - s.start).map_err(|_| Violation::new("harness:region", "region"))?;
+        match UnknownRecordData::parse_any_rdata(rt, &mut sub) {
+            Ok(d) => {
+                vensure!(d.rtype() == rt && d.data().as_ref() == &region[..] && compose_plain(&d) == region && compose_canon(&d) == region && d.rdlen(true) == Some(region.len() as u16) && sub.remaining() == 0, format!("opaque:unknown-record-data-changed"), "UnknownRecordData changed {}", hex(&region));
+            }
+            Err(e) => vfail!("opaque:unknown-record-data-rejects", "{e}"),
+        }
+    }
+    let v = match parsed {
+        Ok(v) => v,
+        Err(e) => {
+            if generated.is_some() && !mutated {
+                ctx.class(format!("lib-rejects-valid:{tn}"));
+                ctx.sample(|| format!("lib-rejects-valid type {rtype}: {e}: {}", hex(&region)));
+            } else if walker.is_ok() {
+                ctx.class(format!("lib-rejects-walker-accepts:{tn}"));
+            }
+            ctx.class("rejected");
+            return Ok(());
+        }
+    };
+    ctx.class("accepted");
+    if mutated {
+        ctx.class("mutated-accepted");
+    }
+    if rr::schema(rtype).is_none() {
+        // unknown type: opaque and unchanged
+        match &v {
+            AllRecordData::Unknown(d) => {
+                vensure!(d.rtype() == rt && d.data().as_ref() == &region[..], "opaque:all-unknown-changed", "AllRecordData::Unknown changed type {rtype} data {}", hex(&region));
+            }
+            _ => vfail!("dispatch:unknown:typed-variant", "type {rtype} without dedicated type parsed into a typed variant"),
+        }
+    }
+    let plain = check_value(rtype, &v, pool, u, ctx)?;
+    match &walker {
+        Ok((norm, _)) => {
+            if &plain == norm {
+                ctx.class("byte-exact");
+            } else {
+                ctx.class(format!("normalised:{tn}"));
+                ctx.sample(|| format!("normalised type {rtype}: in {} out {}", hex(norm), hex(&plain)));
+            }
+        }
+        Err(e) => {
+            ctx.class(format!("lib-accepts-walker-rejects:{tn}:{}", match e {
+                rr::WalkErr::Short => "short".to_string(),
+                rr::WalkErr::BadName(w) => format!("name-{w}"),
+                rr::WalkErr::Form(w) => (*w).to_string(),
+                rr::WalkErr::Trailing => "trailing".to_string(),
+            }));
+        }
+    }
+    if rr::schema(rtype).is_none() {
+        vensure!(plain == region, "opaque:unknown-recomposed-differs", "unknown type {rtype}: {} recomposed as {}", hex(&region), hex(&plain));
+        ctx.class("unknown-type-roundtrip");
+    }
+    if is_nontrivial(rtype, &plain) {
+        ctx.nontrivial(&(rtype, &plain, "parsed"));
+        ctx.sample(|| format!("type {} {}: in {} -> composed {}", rtype, tags.join(","), hex(&region), hex(&plain)));
+    }
+    Ok(())
+}
+
+/// Raw entry: 2 octets type selector, 1 octet prefix selector, rest RDATA.
+/// Also the coverage-guided target's entry point.
+pub fn run_raw(data: &[u8], ctx: &mut Ctx) -> CaseResult {
+    if data.len() < 3 {
+        return Ok(());
+    }
+    let sel = u16::from_be_bytes([data[0], data[1]]);
+    let n = rr::ALL_TYPES.len();
+    let rtype = if (sel as usize % (n + 4)) < n { rr::ALL_TYPES[sel as usize % (n + 4)] } else { sel };
+    // fixed prefix with names so that pointers have a target
+    let mut msg = vec![0u8; 12];
+    msg.extend_from_slice(b"\x07example\x03com\x00");
+    msg.extend_from_slice(b"\x03WWW\xc0\x0c");
+    msg.extend_from_slice(&[0; 1]);
+    let start = msg.len();
+    msg.extend_from_slice(&data[3..]);
+    let end = msg.len();
+    msg.extend_from_slice(b"\x03end\x00");
+    let pool: Vec<Labels> = vec![vec![b"example".to_vec(), b"com".to_vec()], vec![]];
+    let mut u = Unstructured::new(&data[2..3]);
+    run_region(rtype, Scratch { msg, start, end }, None, false, &[], &pool, &mut u, ctx)
+}
+
+pub fn fuzz_one(data: &[u8]) {
+    let known = std::sync::Arc::new(load_known());
+    let props = vec![prop().unwrap()];
+    fuzz_entry(&props, "C05", "raw", data, &known);
+}
+
+//------------ health -----------------------------------------------------------
+
+fn health(c: &BTreeMap<String, u64>, _t: bool) -> Result<(), String> {
+    let get = |k: &str| c.get(k).copied().unwrap_or(0);
+    for t in rr::ALL_TYPES {
+        let tn = rr::mnemonic(*t);
+        for pre in ["nt:", "ok:", "typed:"] {
+            if get(&format!("{pre}{tn}")) < 20 {
+                return Err(format!("class {pre}{tn} starved ({})", get(&format!("{pre}{tn}"))));
+            }
+        }
+    }
+    for k in [
+        "nt:unknown",
+        "unknown-type-roundtrip",
+        "valid",
+        "mutated",
+        "raw",
+        "mutated-accepted",
+        "rejected",
+        "byte-exact",
+        "input-compressed",
+        "compressed-on-target",
+        "canonical-lowercased",
+        "canonical-identical-with-uppercase",
+        "zone-opaque",
+        "limit:at-65535",
+        "limit:over-rejected",
+        "opt-option-roundtrip",
+        "svcparam-roundtrip",
+        "txtbuilder",
+        "bitmapbuilder",
+        "svcparamsbuilder",
+        "optbuilder",
+    ] {
+        if get(k) < 20 {
+            return Err(format!("class {k} starved ({})", get(k)));
+        }
+    }
+    // every type whose canonical form differs from the wire form must have
+    // been seen lower-cased, and compression must have happened for the
+    // RFC 1035 types
+    for t in rr::ALL_TYPES {
+        let Some(f) = rr::schema(*t) else { continue };
+        let tn = rr::mnemonic(*t);
+        if f.iter().any(|x| matches!(x, F::Name { lower: true, .. })) && get(&format!("canonical-lowercased:{tn}")) < 5 {
+            return Err(format!("canonical-lowercased:{tn} starved"));
+        }
+        if f.iter().any(|x| matches!(x, F::Name { wk: true, .. })) && (get(&format!("compressed:{tn}")) < 5 || get(&format!("input-compressed:{tn}")) < 5) {
+            return Err(format!("compressed:{tn} / input-compressed:{tn} starved"));
+        }
+    }
+    Ok(())
+}
 
 pub fn prop() -> Option<Prop> {
-    None
+    Some(Prop {
+        id: "C05",
+        rule: "case = (record type, value) where the value comes from parsing generator-made / mutated / raw RDATA (counted only when the parser accepted) or from a public constructor or builder; non-trivial = a variable-length field is non-empty (RDATA longer than the type's minimum) or an embedded name has an upper-case letter (types with only fixed fields: some octet non-zero); distinct by (origin: parsed / constructed / limit, type, composed RDATA)",
+        assumptions: &[
+            "equal value = the library's == (names compare case-insensitively), strengthened by identical re-composition; AllRecordData::Opt/Unknown compared through their inner values because AllRecordData's PartialEq has no arm for them (C04)",
+            "independent field table refimpl::rdata for the generator, for decompression and for the RFC 4034 §6.2 / RFC 6840 §5.1 canonical form",
+            "compressing targets are kept below 0x4000 octets (pointer range is C02's subject); buffers with compressed names are at most 65535 octets",
+        ],
+        subchecks: vec![
+            SubCheck::new("wire", run_wire, 280_000, 2_400_000, 1200),
+            SubCheck::new("raw", run_raw, 100_000, 1_500_000, 300),
+            SubCheck::new("typed", typed::run_typed, 220_000, 2_000_000, 1200),
+            SubCheck::new("limits", limits::run_limits, 5_000, 40_000, 64),
+        ],
+        health: Some(health),
+        extra: None,
+    })
 }
